@@ -987,6 +987,28 @@ impl Real {
                     _ => "err NoSuchHandle".into(),
                 }
             }
+            ["hdr_cut", hs, hd, n] => {
+                // the serialised header cut to its first n bytes, then read back: the model is given the same bytes; when the
+                // implementation accepts them the result is stored so that it can be opened
+                self.model_line = Some("noop".into());
+                // n >= 0: keep the first n bytes; n < 0: drop the last -n bytes
+                let (Some(i), Some(j), Ok(n)) = (handle('H', hs), handle('H', hd), n.parse::<i64>()) else { return "bad-op".into() };
+                let Some(Some((h, sec))) = self.hdrs.get(i) else { return "bad-op".into() };
+                let sec = sec.clone();
+                let bytes = h.serialize().unwrap().to_vec();
+                let keep = if n >= 0 { (n as usize).min(bytes.len()) } else { bytes.len().saturating_sub((-n) as usize) };
+                let cut = bytes[..keep].to_vec();
+                self.model_line = Some(format!("wire hdr {} x{}", crate::util::CFG, hex(&cut)));
+                match EncryptedHeader::deserialize(&cut) {
+                    Ok(h2) => {
+                        let b2 = h2.serialize().unwrap().to_vec();
+                        let o = format!("ok len={} rt={}", h2.length(), (b2 == cut) as u8);
+                        set_slot(&mut self.hdrs, j, Some((h2, sec)));
+                        o
+                    }
+                    Err(_) => { set_slot(&mut self.hdrs, j, None); "err Deserialize".into() }
+                }
+            }
             ["ser_clr", us, hs, ad] => {
                 // the cleartext header a key obtains from an encrypted one: announced length, equality after a round trip
                 // (absent = empty metadata); the model is given the bytes
